@@ -172,6 +172,19 @@ CLAIMED = {
         design_ref="DESIGN.md §6 C13",
         note="Trusted: Coq kernel + vm_compute; model tied by differential testing; reg_set of user RED1/RED2 variants relies on non-negative user values; one known finding.",
         technique="Coq proof (closed form of weighted energy, sum exchange over carriers, nra/lra) + refutation witness + correspondence + oracle"),
+    "C15": dict(
+        text="Executable Coq model of cte::fraccion_renovable_acs_nrb (all four contributions, exclusion tags, thresholds) "
+             "with machine-checked theorems for the parts that do not depend on the supply mix: no declared DHW demand -> "
+             "error; |demand| < epsilon -> error (also with no DHW consumption, fix 35df073); no DHW consumption and "
+             "non-zero demand -> 0; the fraction reads nothing that depends on k_exp (C15_k_independent: same value or "
+             "error for every k_exp) nor on the reference area. PARTIAL: the closed forms of the canonical supply mixes "
+             "(direct electric + PV, heat pump, solar thermal + boiler, biomass alone), the range [0,1] for consistent "
+             "demands, the invariance under non-EPB and other services' non-electric consumption, and the biomass-without-"
+             "output error are decided by the differential run only: model vs implementation on every generated building, "
+             "and those statements evaluated on implementation outputs.",
+        design_ref="DESIGN.md §6 C15",
+        note="Trusted: Coq kernel + vm_compute; model tied by differential testing (absolute 5e-4 on the fraction). Partial claim as stated; 'consistent demand' is constructed by the generator.",
+        technique="Coq model + theorems for error cases and k/area independence + model/impl correspondence + closed-form/invariance oracle"),
 }
 
 PENDING_REASON = "not claimed yet in this round: model/theorems for this property are still being built (see DESIGN.md §10 order of work)"
